@@ -8,9 +8,8 @@ strictly with the token index (`PosSorted`), and headers with pairwise distinct 
 -/
 namespace CL
 
-/-- token locations strictly increase along the token list -/
-def PosSorted (toks : List Tok) : Prop :=
-  toks.Pairwise (fun a b => a.line < b.line ∨ (a.line = b.line ∧ a.col < b.col))
+/-! `PosSorted toks` (token locations strictly increase along the list) is defined in
+`CodeLimit/Spec/Nocl.lean`. -/
 
 theorem keyLe_trans (a b c : Nat × Nat) (h1 : keyLe a b = true) (h2 : keyLe b c = true) :
     keyLe a c = true := by
